@@ -49,3 +49,16 @@ def flaky(x):
     if MODE["fail"]:
         raise RuntimeError(f"flaky {x!r}")
     return ["flaky-ok", x]
+
+
+@task()
+def flaky_file(path):
+    """Writes a file and returns it as a File value (an output that can become invalid later)."""
+    from redun import File
+
+    CALLS.append(("flaky_file", path))
+    if MODE["fail"]:
+        raise RuntimeError(f"flaky_file {path!r}")
+    f = File(path)
+    f.write("task-output")
+    return f
